@@ -109,6 +109,16 @@ def run(ctx):
                   expected="Score::MIN + K + real_depth as Score in the three other cases", found=rows)
         lf, order = leaf(fn, F)
         p_ok = order[:2] == [("player=", "Game::player(game)"), ("get_moves",)] and ("push",) not in order[:order.index(("get_moves",)) if ("get_moves",) in order else 0]
+        if not p_ok:
+            # the mover may also be read later (inside the no-move branch, in an expanded helper) as long as nothing has been
+            # played yet: every `let player = game.player()` lies before the first push of the function in the text
+            psym = hir.Sym(hir.Env(fn["hir"], F), F)
+            lets_ = [n for n, _ in hir.walk(fn["hir"]["body"]) if n.get("k") == "SLet" and str(n["pat"].get("name", "")).split("'")[0] == "player"
+                     and n.get("init") is not None]
+            pushes_ = [tuple((n.get("sp") or [0, 0])[:2]) for n, _ in hir.walk(fn["hir"]["body"]) if n.get("k") == "MethodCall"
+                       and hir.callee_of(n) == "chess::Game::push"]
+            first_push = min(pushes_) if pushes_ else (10 ** 9, 0)
+            p_ok = bool(lets_) and all(hir.fmt(psym(n["init"]), 60) == "Game::player(game)" and tuple((n.get("sp") or [0, 0])[:2]) < first_push for n in lets_)
         ctx.check("C10.N1", "mover-captured-before-anything-is-played:%s" % short, p_ok, fn=path, file=fn["file"],
                   what="`player` must be game.player() taken before moves are generated or played (after a push it is the opponent)",
                   expected=[("player=", "Game::player(game)"), ("get_moves",)], found=order[:4])
